@@ -49,9 +49,18 @@ JudgeObserver(c, res, ms, notes) ==
   ELSE IF Len(notes) = 1 /\ notes[1].reason \notin (Reasons(c) \cup (IF c.when = "after" THEN {} ELSE {"noconnection"})) THEN "NoticeReason"
   ELSE ""
 
+\* continuation of a cut: the nodes reconnect, a new observer relates to the same target(s), the target is killed.  The first
+\* observers have had their notice: they hear nothing more; the new observer is owed one notice per relation.
+JudgeAgain(e) ==
+  IF e.newres = "" THEN ""
+  ELSE IF \E i \in 1..Len(e.extra) : e.extra[i] # 0 THEN "NothingAfterTheNotice"
+  ELSE IF e.newres = "hang" THEN "NoHang"
+  ELSE IF e.newres = "ok" /\ e.c.kind # "node" /\ Len(e.newnotes) # 1 + Len(e.c.more) THEN "NoticeOnce"
+  ELSE ""
 JudgeDown(e) ==
   LET bad == {i \in 1..Len(e.relres) : JudgeObserver(e.c, e.relres[i], e.relms[i], e.notes[i]) # ""} IN
   IF bad # {} THEN LET i == CHOOSE x \in bad : \A y \in bad : x <= y IN JudgeObserver(e.c, e.relres[i], e.relms[i], e.notes[i])
+  ELSE IF JudgeAgain(e) # "" THEN JudgeAgain(e)
   ELSE IF e.c.call /\ ConnFault(e.c) /\ (e.callres \in {"ok", "hang"} \/ e.callms > 3000 + 1500) THEN "CallFails"
   ELSE ""
 
